@@ -745,3 +745,144 @@ def csharp_block_xml_error(comment: str) -> Optional[str]:
         return None
     except Exception as e:
         return str(e)
+
+
+# ---------------------------------------------------------------- f-string stream: interpolated
+# patterns / invariants whose literal parts mix quotes, braces, backslashes, newline escapes
+def _fsrc(parts) -> str:
+    """Source text of a double-quoted f-string: str parts are literal text, tuples ("v", name)
+    are formatted values."""
+    out = ['f"']
+    for p in parts:
+        if isinstance(p, tuple):
+            out.append("{" + p[1] + "}")
+        else:
+            for c in p:
+                out.append({"\\": "\\\\", '"': '\\"', "\n": "\\n", "\t": "\\t", "\r": "\\r",
+                            "{": "{{", "}": "}}"}.get(c, c))
+    out.append('"')
+    return "".join(out)
+
+
+W = ("v", "word")
+# literal parts of the patterns, as REGEX text. Quote mixes cover: no quote, only ', only ",
+# equal numbers, more ' than ", more " than ', three in a row; braces come from quantifiers;
+# backslashes from regex escapes; \n / \t are real control characters inside the pattern.
+FSTRING_PATTERNS = [
+    ("q0", ["^x", W, "-", W, "$"]),
+    ("s1", ["^'", W, "$"]),
+    ("d1", ['^"', W, "$"]),
+    ("s1d1", ["^('", W, '|"', W, '")$']),           # seeded C20-3 shape: ' <= " -> f'...'
+    ("s1d1-adjacent", ["^'", W, '"$']),
+    ("s2d1", ["^'", W, "'\"x$"]),
+    ("s1d2", ['^"', W, "\"'x$"]),
+    ("s2d2", ["^'\"", W, "\"'$"]),
+    ("s3", ["^'''", W, "$"]),
+    ("d3", ['^"""', W, "$"]),
+    ("s3d3", ["^'''", W, '"""$']),
+    ("brace", ["^[a-z]{2,3}", W, "x{2}$"]),
+    ("brace-s1d1", ["^'[a-z]{2}", W, '"{3}$']),
+    ("brace-d2s1", ['^"{2}', W, "'x{1,2}$"]),
+    ("backslash", ["^\\.", W, "\\\\x$"]),
+    ("backslash-s1d1", ["^\\.'", W, '\\\\"$']),
+    ("backslash-quote-end", ["^", W, "\\\\'$"]),
+    ("newline", ["^a\nb", W, "\tc$"]),
+    ("newline-s1d1", ["^'\n", W, '\t"$']),
+    ("escape-n", ["^a\\nb", W, "c\\t$"]),
+    ("two-values-s1d2", ["^", W, "'", ("v", "other"), '""$']),
+    ("value-first-last", ["^", W, "'x\"", W, "$"]),
+    ("dollar-brace", ["^\\$\\{", W, "\\}'\"$"]),
+    ("unicode", ["^\u00e9'", W, '"\U0001F600$']),
+]
+
+FSTRING_HEADER = '''"""Provide a meta-model with interpolated patterns."""
+from enum import Enum
+from re import match
+from typing import List, Optional
+from icontract import invariant, DBC
+from aas_core_meta.marker import (
+    abstract,
+    serialization,
+    implementation_specific,
+    verification,
+    constant_set,
+    non_mutating,
+)
+
+__version__ = "V1"
+
+__xml_namespace__ = "https://example.com/x"
+'''
+
+FSTRING_SNIPPETS = {
+    "cpp": {"namespace.txt": "dummy::fstr"}, "csharp": {"namespace.txt": "Dummy.Fstr"},
+    "golang": {"repo_url.txt": "github.com/dummy-works/fstr"}, "java": {"package.txt": "dummy.fstr"},
+    "python": {"qualified_module_name.txt": "dummy_fstr"},
+    "typescript": {"package_identifier.txt": "@dummy-works/fstr",
+                   "package_documentation.txt": "Provide a dummy SDK."},
+}
+
+
+S = ("v", "self.other")
+# f-strings in invariants (general transpilation, not the pattern path). Literal parts must
+# not start or end with white space: the transpilers pass them through Stripped(..).
+FSTRING_INVARIANTS = [
+    ("inv-s1d1", ["'", S, '"']),
+    ("inv-s1d2-brace", ["it's", S, '"q"{x}']),
+    ("inv-s2d1", ['"', S, "''"]),
+    ("inv-backslash-newline", ["a\\b'", S, '"\nz']),
+    ("inv-s1d1-two", ["('", S, '|"', S, '")']),
+    ("inv-d3", ['"""', S, "x"]),
+]
+
+
+def fstring_model(patterns, invariants=()) -> str:
+    """One pattern verification function + one constrained primitive per pattern, and a class
+    that uses all of them."""
+    out = [FSTRING_HEADER]
+    props = []
+    for k, (label, parts) in enumerate(patterns):
+        out.append(f'''
+@verification
+def matches_p{k}(text: str) -> bool:
+    """Check that :paramref:`text` matches the pattern {k}."""
+    word = "[a-z]+"
+    other = "[0-9]"
+    pattern = {_fsrc(parts)}
+    return match(pattern, text) is not None
+
+
+@invariant(lambda self: matches_p{k}(self), "Must match the pattern {k}")
+class Text_p{k}(str, DBC):
+    """Represent a text matching the pattern {k}."""
+''')
+        props.append(f"text_p{k}")
+    for k, (label, parts) in enumerate(invariants):
+        out.append(f'''
+
+@invariant(lambda self: self.name != {_fsrc(parts)}, "Name must differ from the text {k}")''')
+    if invariants:
+        out.append('''
+class Named(DBC):
+    """Represent something named."""
+
+    name: str
+    """Name"""
+
+    other: str
+    """Other"""
+
+    def __init__(self, name: str, other: str) -> None:
+        self.name = name
+        self.other = other
+''')
+    if not props:
+        return "".join(out)
+    out.append('\n\nclass Something(DBC):\n    """Represent something."""\n')
+    for k, p in enumerate(props):
+        out.append(f'\n    {p}: Text_p{k}\n    """Text {k}"""\n')
+    args = ", ".join(f"{p}: Text_p{k}" for k, p in enumerate(props))
+    out.append(f"\n    def __init__(self, {args}) -> None:\n")
+    for p in props:
+        out.append(f"        self.{p} = {p}\n")
+    return "".join(out)
